@@ -26,6 +26,12 @@ def sequences(tier):
     # the last two: one year minus 25.5 h / minus 30 h, i.e. a wrap that looks like stepping back by just over a day
     gaps = [1, 86400, 26 * 3600, 40 * 86400, 200 * 86400, 365 * 86400 - 25 * 3600 - 1800, 365 * 86400 - 30 * 3600]
     starts = [epoch(2018, 12, 30, 23, 59, 59), epoch(2018, 11, 15, 12, 0, 0), epoch(2019, 6, 1, 0, 0, 1), epoch(2018, 12, 31, 23, 59, 59)]
+    # leap days that are NOT followed by a later year: 29 February as the first message after a wrap, in the middle, at the end
+    leap = [[epoch(2019, 12, 31, 23, 59, 59), epoch(2020, 2, 29, 10, 0, 0), epoch(2020, 3, 1, 10, 0, 0)],
+            [epoch(2019, 12, 31, 23, 59, 59), epoch(2020, 1, 15, 0, 0, 0), epoch(2020, 2, 29, 10, 0, 0)],
+            [epoch(2020, 2, 28, 23, 0, 0), epoch(2020, 2, 29, 10, 0, 0), epoch(2020, 3, 1, 10, 0, 0)],
+            [epoch(2019, 11, 1, 0, 0, 0), epoch(2019, 12, 31, 23, 59, 59), epoch(2020, 2, 29, 23, 59, 59)],
+            [epoch(2020, 2, 29, 0, 0, 0)]]
     nmax = 3 if tier == "quick" else 4
     out = []
     for st in starts:
@@ -43,12 +49,14 @@ def sequences(tier):
                         ok = False
                     if yb == ya + 1 and (mb, db, hb, mib, sb) >= (ma, da, ha, mia, sa):
                         ok = False      # a year passed without a visible wrap
-                    if (ma, da) == (2, 29) and yb > ya:
-                        feb29 = True    # Issue #245: excluded from the verdict
-                if any(gen.civil(t)[1:3] == (2, 29) for t in seq):
-                    feb29 = True
+                # Issue #245 (excluded from the verdict): a 29 February message that is followed, anywhere later in the
+                # file, by a message of a later year
+                for k, t in enumerate(seq):
+                    if gen.civil(t)[1:3] == (2, 29) and any(gen.civil(u)[0] > gen.civil(t)[0] for u in seq[k + 1:]):
+                        feb29 = True
                 if ok and not feb29:
                     out.append(seq)
+    out += leap
     # de-duplicate
     uniq = []
     seen = set()
@@ -160,7 +168,8 @@ def run(tier, seed, build=True):
                 if r.timed_out or r.rc not in (0, 1) or r.out != exp:
                     nwr = wraps(seq)
                     feats = {"container": cont, "wraps": min(nwr, 2), "windowed": a is not None or b is not None, "tz_nonzero": tzm != 0,
-                             "first_gap_is_wrap": len(seq) > 1 and gen.civil(seq[1])[0] != gen.civil(seq[0])[0]}
+                             "first_gap_is_wrap": len(seq) > 1 and gen.civil(seq[1])[0] != gen.civil(seq[0])[0],
+                             "feb29_directly_after_a_year_wrap": any(gen.civil(b_)[1:3] == (2, 29) and gen.civil(a_)[0] < gen.civil(b_)[0] for a_, b_ in zip(seq, seq[1:]))}
                     if r.timed_out or r.rc not in (0, 1):
                         feats["symptom"] = "crash"
                     else:
